@@ -124,6 +124,13 @@ def parseOpts : Nat → Cursor → Out (List Opt)
     let rest ← parseOpts fuel c
     pure (⟨t, payloadSize, data⟩ :: rest)
 
+/-- `if (has_options()) parse_options(stream);` -/
+def parseOptsIf (on : Bool) (c : Cursor) : Out (List Opt × Cursor) :=
+  if on then do
+    let os ← parseOpts c.size c
+    pure (os, (⟨[], 0⟩ : Cursor))          -- the loop ends only with an empty stream
+  else pure ([], c)
+
 /-- `options_size_` after `add_option` of each parsed option (uint32_t) -/
 def sizeAfter (s : Nat) (os : List Opt) : Nat := os.foldl (fun s o => (s + optWire o) % 4294967296) s
 
@@ -151,8 +158,8 @@ def zeros (n : Nat) : Bytes := List.replicate n 0
 
 /-- everything between the 8-byte header and the options, by type -/
 def readBody (t : Nat) (un : Bytes) (c : Cursor) : Out (Body × Cursor) := do
-  let (target, c) ← if hasTarget t then c.read 16 else pure (zeros 16, c)
-  let (dest, c) ← if hasDest t then c.read 16 else pure (zeros 16, c)
+  let (target, c) ← readIf (hasTarget t) 16 c
+  let (dest, c) ← readIf (hasDest t) 16 c
   let b0 : Body := ⟨target, dest, zeros 4, zeros 4, [], zeros 16, true, zeros 2, []⟩
   if t == 134 then do
     let (reach, c) ← c.read 4
@@ -179,11 +186,8 @@ def parseHead (b : Bytes) : Out (Icmp6 × Cursor) := do
   let (cksum, c) ← c.readBE 2
   let (un, c) ← c.read 4
   let (body, c) ← readBody t un c
-  let (opts, c) ← if hasOptions t then do
-      let os ← parseOpts c.size c
-      pure (os, (⟨[], 0⟩ : Cursor))          -- the loop ends only with an empty stream
-    else pure ([], c)
-  let (ext, c) ← if extAllowed t then tryParseExt c (byteAt un 0 * 8) ExtS.default else pure (ExtS.default, c)
+  let (opts, c) ← parseOptsIf (hasOptions t) c
+  let (ext, c) ← tryParseExtIf (extAllowed t) c (byteAt un 0 * 8)
   pure (⟨t, code, cksum, un, body.target, body.dest, body.mcast, opts, sizeAfter 0 opts, body.reach,
     body.retrans, body.records, body.mlqm, body.sources, ext, body.useMldv2⟩, c)
 
@@ -413,6 +417,9 @@ def writeRecords (o : OutCursor) : List McastRec → Out OutCursor
     let o ← (⟨o.done, o'.done ++ o'.rest, o.size⟩ : OutCursor).skip r.size
     writeRecords o rs
 
+/-- a member that is only written for some types -/
+def writeIf (on : Bool) (o : OutCursor) (bs : Bytes) : Out OutCursor := if on then o.write bs else pure o
+
 /-- the type-dependent part between the addresses and the options -/
 def writeBody (p : Icmp6) (o : OutCursor) : Out OutCursor :=
   if p.type == 134 then do
@@ -445,8 +452,8 @@ def writeHead (p : Icmp6) (inner : Option Nat) (region : Bytes) : Out OutCursor 
   -- header_.mlrm2.record_count = Endian::host_to_be<uint16_t>(multicast_records_.size());
   let un2 := if p.type == 143 then patch un1 2 (OutCursor.beBytes 2 p.records.length) else un1
   let o ← (OutCursor.ofRegion region).write ([UInt8.ofNat p.type, UInt8.ofNat p.code, 0, 0] ++ un2)
-  let o ← if hasTarget p.type then o.write p.target else pure o
-  let o ← if hasDest p.type then o.write p.dest else pure o
+  let o ← writeIf (hasTarget p.type) o p.target
+  let o ← writeIf (hasDest p.type) o p.dest
   let o ← p.writeBody o
   writeOpts o p.opts
 
